@@ -60,7 +60,7 @@ PROPS = {
         "lean": ["NbioVerif.Properties.C12"], "drivers": ["wsdrv"], "harness": ["hws"],
         "facts": [ws_facts],
         "runs": [_run(["werr", "wire", "recv", "rerr", "back", "berr", "err"])],
-        "oracles": ["c12-"],
+        "oracles": ["c12-"],  # c12-roundtrip, c12-mask, c12-trunc
         "rule": "case = message program on two back-to-back conns (role, compression level, frame limit, message limit, segmentation style) or a "
                 "frame stream fed to Parse, or a maskXOR sweep; distinct by hash of (configuration class, per-op outcome classes); non-trivial iff "
                 "something was delivered, buffered or refused",
